@@ -233,6 +233,25 @@ def run_point(case):
                 fails.append({"key": "nonzero-below-cutoff;%s;%s" % (name, cfg),
                               "msg": "%s = %r at a point with total density %.3g < 0.2 rhocut (rho=%.3g |grad|=%.3g tau=%.3g nl-slot=%d)" % (
                                   name, sel[tuple(idx)], tot[g], p[0], p[1], p[2], p[3])})
+    # separable (SEP) spin mode: each spin channel is its own functional of 2 n_s, so a channel whose density is well
+    # below the cutoff contributes exactly nothing to ITS potential, whatever the other channel holds
+    if pure and not fails and case["mode"] == "SEP" and nspin == 2:
+        for s_ in range(2):
+            low_s = 2 * np.asarray(rho_in)[s_, 0] < 0.2 * RHOCUT
+            for name, a in outs.items():
+                if name == "exc" or (has_sl_add and name == "vxc"):
+                    continue
+                a = np.asarray(a)
+                if a.ndim < 2 or a.shape[0] != 2:
+                    continue
+                sel = a[s_][..., low_s]
+                if sel.size and np.any(sel != 0.0):
+                    idx = np.argwhere(sel != 0.0)[0]
+                    g = int(np.where(low_s)[0][idx[-1]])
+                    fails.append({"key": "nonzero-below-cutoff-channel;%s;%s" % (name, cfg),
+                                  "msg": "%s of spin channel %d = %r at a point where that channel's density %.3g is below 0.2 rhocut / 2 (other channel %.3g)" % (
+                                      name, s_, sel[tuple(idx)], np.asarray(rho_in)[s_, 0, g], np.asarray(rho_in)[1 - s_, 0, g])})
+                    break
     chk = 0.0
     for a in outs.values():
         a = np.asarray(a)
